@@ -11,7 +11,7 @@ open Givaro Givaro.Model.Primes Givaro.Spec.Primes
 def oracleD (n : Int) : Int := if primeI n then 1 else 0
 def ispD (n : Int) : Bool := ispB oracleD n
 
-def verdict (line : String) (specOk modelOk : Bool) (model : String) : String :=
+def primesVerdict (line : String) (specOk modelOk : Bool) (model : String) : String :=
   if specOk && modelOk then "OK"
   else
     let kind := if !specOk && !modelOk then "BOTH" else if !specOk then "SPEC" else "MODEL"
@@ -47,29 +47,29 @@ def primesLine (line : String) : String :=
         let modelOk := match m with
           | some mv => if n < 65536 then mv == v else (mv != 0) == (v != 0)
           | none => false
-        verdict line specOk modelOk (showOpt m)
-      | "nextprime", [p], [q] => let m := nextprime ispD 20000 p; verdict line (chkNext p q) (m == some q) (showOpt m)
-      | "nextprimein", [p], [q] => let m := nextprime ispD 20000 p; verdict line (chkNext p q) (m == some q) (showOpt m)
-      | "prevprime", [p], [q] => let m := prevprime ispD 20000 p; verdict line (chkPrev p q) (m == some q) (showOpt m)
-      | "prevprimein", [p], [q] => let m := prevprime ispD 20000 p; verdict line (chkPrev p q) (m == some q) (showOpt m)
-      | "Pprevprime", [p], [q] => let m := protectedPrevprime primeI 20000 p; verdict line (chkPrev p q) (m == some q) (showOpt m)
+        primesVerdict line specOk modelOk (showOpt m)
+      | "nextprime", [p], [q] => let m := nextprime ispD 20000 p; primesVerdict line (chkNext p q) (m == some q) (showOpt m)
+      | "nextprimein", [p], [q] => let m := nextprime ispD 20000 p; primesVerdict line (chkNext p q) (m == some q) (showOpt m)
+      | "prevprime", [p], [q] => let m := prevprime ispD 20000 p; primesVerdict line (chkPrev p q) (m == some q) (showOpt m)
+      | "prevprimein", [p], [q] => let m := prevprime ispD 20000 p; primesVerdict line (chkPrev p q) (m == some q) (showOpt m)
+      | "Pprevprime", [p], [q] => let m := protectedPrevprime primeI 20000 p; primesVerdict line (chkPrev p q) (m == some q) (showOpt m)
       | "Pnextprime", [p], [q] =>
         -- mpz_nextprime itself: not modelled (GMP), only checked; GMP documents "next prime greater than p"
-        verdict line (chkNext p q) true "-"
+        primesVerdict line (chkNext p q) true "-"
       | "factor", [n], [f] =>
         -- model: the deterministic cascades; Pollard's output is an oracle, replayed from the implementation
         let m := factor (fun _ => f) n
-        verdict line (chkFactor n f) (m == f) (hexInt m)
-      | "iffactorprime", [n], [f] => verdict line (chkPrimeFactor n f) true "-"
-      | "primefactor", [n], [f] => verdict line (chkPrimeFactor n f) true "-"
+        primesVerdict line (chkFactor n f) (m == f) (hexInt m)
+      | "iffactorprime", [n], [f] => primesVerdict line (chkPrimeFactor n f) true "-"
+      | "primefactor", [n], [f] => primesVerdict line (chkPrimeFactor n f) true "-"
       | "set", [n], c :: k :: rest =>
         let fs := pairs rest
         if fs.length != k.toNat || rest.length != 2 * k.toNat then "BAD set | " ++ line else
-        if n == 0 then (if fs.isEmpty then "OK" else verdict line false true "-") else
+        if n == 0 then (if fs.isEmpty then "OK" else primesVerdict line false true "-") else
         let specOk := chkFactorisation n fs && c == 1
         let m := set (replayPf fs) n
         let modelOk := m == some (fs, c != 0)
-        verdict line specOk modelOk (match m with | some (l, b) => s!"{b} {showPairs l}" | none => "fuel")
+        primesVerdict line specOk modelOk (match m with | some (l, b) => s!"{b} {showPairs l}" | none => "fuel")
       | "divisors", [n], k :: rest =>
         let fl := rest.take (2 * k.toNat)
         let fs := pairs fl
@@ -86,21 +86,21 @@ def primesLine (line : String) : String :=
             let m := divisors fs
             -- the three-argument overload is determined by (Lf, Le): compared exactly, order included
             let modelOk := m == d1
-            verdict line specOk modelOk (String.intercalate " " (m.map hexNat))
+            primesVerdict line specOk modelOk (String.intercalate " " (m.map hexNat))
           | _ => "BAD divisors | " ++ line
         | _ => "BAD divisors | " ++ line
       | "isprimepower", [n], [e, q] =>
         let m := isprimepower ispD n
         let specOk := decide (0 ≤ e) && (e == 0 || decide (0 < q)) && chkPrimePower n e.toNat q.toNat
         let modelOk := (m.1 : Int) == e && (e == 0 || (m.2 : Int) == q)
-        verdict line specOk modelOk s!"{hexNat m.1} {hexNat m.2}"
+        primesVerdict line specOk modelOk s!"{hexNat m.1} {hexNat m.2}"
       | "p16", [i], [v] =>
         -- Primes16::ith(i): the (i+1)-th prime; the model is the extracted table
         let m := primes16.getD i.toNat 0
         let specOk := decide (0 ≤ i) && primeI v && (if i == 0 then v == 2 else chkNext ((primes16.getD (i.toNat - 1) 0 : Nat) : Int) v)
-        verdict line specOk ((m : Int) == v) (hexNat m)
+        primesVerdict line specOk ((m : Int) == v) (hexNat m)
       | "p16count", [], [c] =>
-        verdict line (c == 6542) ((primes16Size : Int) == c && primes16.length == primes16Size) (hexNat primes16Size)
+        primesVerdict line (c == 6542) ((primes16Size : Int) == c && primes16.length == primes16Size) (hexNat primes16Size)
       | _, _, _ => "BAD key/arity | " ++ line
     | _, _ => "BAD number | " ++ line
 
